@@ -18,18 +18,46 @@ func witnessOrderFact(rel string) func() string {
 			sign bool
 		}
 		var evs []ev
-		ast.Inspect(fd.Body, func(n ast.Node) bool {
-			if c, ok := n.(*ast.CallExpr); ok {
-				switch src(c.Fun) {
-				case "w.setSTH":
-					evs = append(evs, ev{c.Pos(), false})
-				case "w.signSTH":
-					evs = append(evs, ev{c.Pos(), true})
+		file := parseFile(rp(rel))
+		seq := token.Pos(0)
+		var walk func(body *ast.BlockStmt, depth int)
+		walk = func(body *ast.BlockStmt, depth int) {
+			// calls in source order; a call to another method or function of this file is followed (Update split into helpers)
+			var calls []*ast.CallExpr
+			ast.Inspect(body, func(n ast.Node) bool {
+				if c, ok := n.(*ast.CallExpr); ok {
+					calls = append(calls, c)
+				}
+				return true
+			})
+			sort.Slice(calls, func(i, j int) bool { return calls[i].Pos() < calls[j].Pos() })
+			for _, c := range calls {
+				name := ""
+				switch f := c.Fun.(type) {
+				case *ast.SelectorExpr:
+					name = f.Sel.Name
+				case *ast.Ident:
+					name = f.Name
+				}
+				switch name {
+				case "setSTH":
+					seq++
+					evs = append(evs, ev{seq, false})
+				case "signSTH":
+					seq++
+					evs = append(evs, ev{seq, true})
+				default:
+					if depth < 3 && name != "" && name != "Update" {
+						for _, d := range file.Decls {
+							if g, ok := d.(*ast.FuncDecl); ok && g.Name.Name == name && g.Body != nil {
+								walk(g.Body, depth+1)
+							}
+						}
+					}
 				}
 			}
-			return true
-		})
-		sort.Slice(evs, func(i, j int) bool { return evs[i].pos < evs[j].pos })
+		}
+		walk(fd.Body, 0)
 		// expected shape: two store/sign pairs (trust-on-first-use branch, accepted-update branch)
 		if len(evs) != 4 || evs[0].sign == evs[1].sign || evs[2].sign == evs[3].sign || evs[0].sign != evs[2].sign {
 			panic(bail{fmt.Sprintf("%s: Witness.Update no longer has two setSTH/signSTH pairs in a common order (%d calls)", rel, len(evs))})
@@ -52,14 +80,16 @@ func init() {
 			"(known nextParseFails txFails latestFails latestNotFound signFails setFails prevParseFails : Bool) (nextSize prevSize : Int) (rootsEqual proofBad : Bool)",
 			"Nat × Bool × Bool", "let stored_ := false\n  ", "(0, false, stored_)",
 			Spec{Kind: "u64", Lazy: true, Inline: true, Ret: "statusstate", StateVars: []string{"stored_"}, Ignore: ign, Status: val,
-				IgnoreLHS: []string{"_", "ok"},
+				IgnoreLHS: []string{"_", "ok"}, BindCommaOk: "ok",
 				Vars:      map[string]string{"next.TreeSize": "nextSize", "prev.TreeSize": "prevSize"},
 				ErrCalls: map[string]string{"w.parse(nextRaw": "nextParseFails", "w.parse(prevRaw": "prevParseFails", "w.db.BeginTx": "txFails",
 					"w.getLatestSTH": "latestFails", "w.signSTH(next)": "signFails", "w.setSTH(tx,logID,nextRaw)": "setFails|stored_ := (!setFails)"},
 				InitCond: map[string]string{
 					"err := proof.VerifyConsistency(rfc6962.DefaultHasher, prev.TreeSize, next.TreeSize, pf, prev.SHA256RootHash[:], next.SHA256RootHash[:]) ; err != nil": "proofBad"},
-				Repl: map[string]string{"!ok": "(!known)", "status.Code(err) == codes.NotFound": "latestNotFound",
-					"bytes.Equal(next.SHA256RootHash[:], prev.SHA256RootHash[:])": "rootsEqual"}})},
+				InitCondByCall: map[string]string{".VerifyConsistency": "proofBad"},
+				Repl: map[string]string{"!ok": "(!known)", "status.Code(err) == codes.NotFound": "latestNotFound", "status.Code(err) != codes.NotFound": "(!latestNotFound)",
+					"bytes.Equal(next.SHA256RootHash[:], prev.SHA256RootHash[:])": "rootsEqual",
+					"next.SHA256RootHash == prev.SHA256RootHash": "rootsEqual", "next.SHA256RootHash != prev.SHA256RootHash": "(!rootsEqual)"}})},
 		{"Witness.GetSTH", handlerKernel(w, "Witness.GetSTH", "witnessGetSTH", "(latestFails parseFails signFails : Bool)", "Nat × Bool", "", "(0, false)",
 			Spec{Kind: "u64", Lazy: true, Inline: true, Ret: "statusstate", Ignore: ign, Status: val,
 				ErrCalls: map[string]string{"w.getLatestSTH": "latestFails", "w.parse(sthRaw": "parseFails", "w.signSTH(sth)": "signFails"}})},
@@ -68,7 +98,11 @@ func init() {
 				IgnoreLHS: []string{"sv", "ok", "sth", "idHash", "empty"},
 				InitCond: map[string]string{"err := json.Unmarshal(sthRaw, &sth) ; err != nil": "jsonBad", "err := idHash.FromBase64String(logID) ; err != nil": "idBad",
 					"err := sv.VerifySTHSignature(sth) ; err != nil": "sigBad"},
-				AppendEffect: map[string]string{"stmt:sth.LogID=idHash": "filled_ := true"},
-				Repl: map[string]string{"!ok": "(!known)", "bytes.Equal(sth.LogID[:], empty[:])": "idEmpty", "bytes.Equal(sth.LogID[:], idHash[:])": "idSame"}})},
+				InitCondByCall: map[string]string{".Unmarshal": "jsonBad", ".FromBase64String": "idBad", ".VerifySTHSignature": "sigBad"},
+				BindRecv:       map[string]string{".FromBase64String": "idHash"}, BindArg: map[string]string{"json.Unmarshal#1": "sth"},
+				BindDecl:       map[string]string{"ct.SHA256Hash": "empty"}, BindCommaOk: "ok",
+				AppendEffect:   map[string]string{"stmt:sth.LogID=idHash": "filled_ := true"},
+				Repl: map[string]string{"!ok": "(!known)", "bytes.Equal(sth.LogID[:], empty[:])": "idEmpty", "bytes.Equal(sth.LogID[:], idHash[:])": "idSame",
+					"sth.LogID == empty": "idEmpty", "sth.LogID != empty": "(!idEmpty)", "sth.LogID == idHash": "idSame", "sth.LogID != idHash": "(!idSame)"}})},
 	}})
 }
